@@ -104,7 +104,7 @@ pub fn subs() -> Vec<Box<dyn SubCheck>> {
         Box::new(PropCheck::<Scenario, _> {
         name: "delivery_generated",
         cases: |t| t.pick(2_000, 120_000),
-        strategy: |_t: Tier| gen::scenario(CFG),
+        strategy: |_t: Tier| gen::with_retry(gen::scenario(CFG)),
         oracle,
         max_shrink_iters: 400,
     })]
